@@ -558,18 +558,33 @@ def impl_table(ts, terms_of):
     return [(t, m, terms, vals) for (t, m, terms), vals in zip(keys, flat)]
 
 
+def variant_of(t):
+    """which variant of the culture's configuration the tree follows (translator flag `pastPrefixFollowsPrevious`)"""
+    return 'previous' if t.get('past_follows_previous', True) else 'past'
+
+
 def write_baseline():
+    """records the values of the CURRENT tree (VERIF_REPO) under cultures[<dir>][<variant>]; entries of the other variant
+    already in the file are kept, so running it on the unrepaired and on the repaired tree fills both"""
     from translate import cultureconfig as cc
     ts = cc.tables()
-    out = {'_comment': 'values of the culture configuration methods (working tree the C08Config theorems were written for) on '
-                       'the culture\'s own terms; written by harness/lib/cultureconfigcorr.py --baseline; read by its '
-                       'search() when a theorem on the regenerated tables breaks',
-           'cultures': {}}
+    try:
+        out = json.load(open(BASELINE, encoding='utf-8'))
+        if not all(isinstance(v, dict) and set(v) <= {'previous', 'past'} for v in out.get('cultures', {}).values()):
+            raise ValueError('old layout')
+    except Exception:
+        out = {'cultures': {}}
+    out['_comment'] = ('values of the culture configuration methods on the culture\'s own terms, per culture directory and per '
+                       'variant of the tree (`previous`: the date-period configuration holds the resource\'s PreviousPrefixRegex; '
+                       '`past`: the unrepaired German / Italian form); written by harness/lib/cultureconfigcorr.py --baseline '
+                       '(run it with VERIF_REPO on each tree); read by its search() when a theorem on the regenerated tables breaks')
+    fresh = {}
     for t, m, terms, vals in impl_table(ts, baseline_terms):
-        cu = out['cultures'].setdefault(t['dir'], {'terms': terms, 'methods': {}})
-        # most common value + exceptions
-        common_v = max(set(vals), key=vals.count)
+        cu = fresh.setdefault(t['dir'], {'variant': variant_of(t), 'terms': terms, 'methods': {}})
+        common_v = max(set(vals), key=vals.count)        # most common value + exceptions
         cu['methods'][m['key']] = {'default': common_v, 'other': {str(i): v for i, v in enumerate(vals) if v != common_v}}
+    for d, cu in fresh.items():
+        out['cultures'].setdefault(d, {})[cu.pop('variant')] = cu
     with open(BASELINE, 'w', encoding='utf-8') as f:
         json.dump(out, f, ensure_ascii=False, indent=0, sort_keys=True)
     return out
@@ -588,9 +603,13 @@ def changed_terms(ts):
     except Exception:
         return None
     out = []
-    tab = impl_table(ts, lambda t: base.get(t['dir'], {}).get('terms', []))
+
+    def entry(t):
+        per = base.get(t['dir'], {})
+        return per.get(variant_of(t)) or {}
+    tab = impl_table(ts, lambda t: entry(t).get('terms', []))
     for t, m, terms, vals in tab:
-        rec = base.get(t['dir'], {}).get('methods', {}).get(m['key'])
+        rec = entry(t).get('methods', {}).get(m['key'])
         if rec is None:
             continue
         for i, (term, v) in enumerate(zip(terms, vals)):
@@ -676,4 +695,4 @@ def search(ctx, proof_problems):
 if __name__ == '__main__':
     if '--baseline' in sys.argv:
         b = write_baseline()
-        print('wrote', BASELINE, {k: len(v['methods']) for k, v in b['cultures'].items()})
+        print('wrote', BASELINE, {k: {vr: len(e['methods']) for vr, e in v.items()} for k, v in b['cultures'].items()})
